@@ -721,6 +721,7 @@ func (b *builder) faults(prog []*scen.TestNode, kill bool) []scen.Fault {
 		{"cleanopen", []string{"EIO", "EACCES"}},
 		{"cleanwrite", []string{"ENOSPC", "EIO"}},
 		{"cleantruncate", []string{"EIO"}},
+		{"cleanread", []string{"EIO"}},
 	}
 	n := 1 + r.Intn(3)
 	var out []scen.Fault
@@ -734,7 +735,7 @@ func (b *builder) faults(prog []*scen.TestNode, kill bool) []scen.Fault {
 			f.PathSuffix = []string{"zz_world_a_test.snap", "zz_world_b_test.snap", "zz_world_c.snapshot_test.snap", "shared.snap", "data.snap"}[r.Intn(5)]
 			f.Nth = 1
 		}
-		if k.kind == "cleanwrite" || k.kind == "cleantruncate" {
+		if k.kind == "cleanwrite" || k.kind == "cleantruncate" || k.kind == "cleanread" {
 			// Clean rewriting a used snapshot file: the n-th entry it writes back fails (or
 			// the process dies there: the file is left truncated or half rewritten)
 			f.Kind = strings.TrimPrefix(k.kind, "clean")
